@@ -269,4 +269,4 @@ def run(ctx, chk):
     rules_c16.run(ctx, sub)
     sub2 = Sub(chk, "C03-c", lambda r: r in ("C04-d/writer-header", "C04-d/reader-header", "C04-d/adpu", "C04-d/marker-constant"))
     rules_c04.run(ctx, sub2)
-    chk.floor("APDU length-field obligations (shared with C16/C04)", sub.count + sub2.count, 9)
+    chk.floor("APDU length-field obligations (shared with C16/C04)", sub.count + sub2.count, 5)
